@@ -42,6 +42,8 @@ class SdoClient(SdoBase):
         """
         SdoBase.__init__(self, rx_cobid, tx_cobid, od)
         self.responses = queue.Queue()
+        #: Index and subindex of the most recently started transfer
+        self._multiplexer = (0, 0)
 
     def on_response(self, can_id, data, timestamp):
         self.responses.put(bytes(data))
@@ -96,8 +98,7 @@ class SdoClient(SdoBase):
     def abort(self, abort_code=0x08000000):
         """Abort current transfer."""
         request = bytearray(8)
-        request[0] = REQUEST_ABORTED
-        # TODO: Is it necessary to include index and subindex?
+        SDO_STRUCT.pack_into(request, 0, REQUEST_ABORTED, *self._multiplexer)
         struct.pack_into("<L", request, 4, abort_code)
         self.send_request(request)
         logger.error("Transfer aborted by client with code 0x%08X", abort_code)
@@ -201,6 +202,7 @@ class SdoClient(SdoBase):
             A file like object.
         """
         buffer_size = buffering if buffering > 1 else io.DEFAULT_BUFFER_SIZE
+        self._multiplexer = (index, subindex)
         if "r" in mode:
             if block_transfer:
                 raw_stream = BlockUploadStream(self, index, subindex, request_crc_support=request_crc_support)
